@@ -71,8 +71,14 @@ package objectsets
 //@   loop 1 invariant 0 <= idx && idx <= len(refs) && gomem_unchanged()
 //@   loop 1 invariant forall k int :: 0 <= k && k < idx ==> refs[k].Name != ref.Name
 
-//@ props C03,C06,C15
+//@ props C03,C06,C09,C15
 //@ func package-operator.run/internal/controllers/objectsets.(*objectSetRemotePhaseReconciler).Reconcile
+// whenever a delegated phase is reconciled without error, its paused flag agrees with the ObjectSet's or a patch
+// setting it was accepted - also when the phase has not reported a status yet
+//@   requires [C09] !patchedPause() && !pauseHandedOver()
+//@   at Client.Patch#1 ghost patchedPause() := true
+//@   at FindStatusCondition#1 ghost pauseHandedOver() := patchedPause() || phasePaused(clientObj(currentObjectSetPhase)) == phasePaused(clientObj(desiredObjectSetPhase))
+//@   ensures [C09] result2 == nil && len(phase.Class) > 0 ==> pauseHandedOver()
 //@   sink Client.Create#1 requires [C15] getResult(clientObj(currentObjectSetPhase)) == 4 || lastGet() == 4
 //@   sink Client.Patch#1 requires [C09,C15] true
 //@   at return#7 assert [C03,C06,C15] availableCond != nil && availableCond.ObservedGeneration == genOf(objstate(clientObj(currentObjectSetPhase)))
